@@ -316,6 +316,15 @@ func (w *world) close() {
 	}
 }
 
+// patience: how long to wait for something that must happen at once; once this world has already
+// shown an anomaly (recorded in problem) there is no point in waiting the full deadline again.
+func (w *world) patience() time.Duration {
+	if w.problem != "" {
+		return 50 * time.Millisecond
+	}
+	return Deadline
+}
+
 func (w *world) note(format string, a ...interface{}) {
 	if w.problem == "" {
 		w.problem = fmt.Sprintf(format, a...)
@@ -336,7 +345,7 @@ func (w *world) waitStable(r *streamRun) {
 	case err := <-r.done:
 		r.phase = "done"
 		r.done <- err
-	case <-time.After(Deadline):
+	case <-time.After(w.patience()):
 		w.note("stream did not reach a Send, AddCallback or its end within %v", Deadline)
 	}
 }
@@ -367,7 +376,7 @@ func (w *world) do(e event) {
 			if err != nil && e.ctx == 0 {
 				w.note("Put failed: %v", err)
 			}
-		case <-time.After(Deadline):
+		case <-time.After(w.patience()):
 			w.note("Put of round %d did not return within %v", round, Deadline)
 		}
 		if e.ctx != 0 {
@@ -443,7 +452,7 @@ func (w *world) do(e event) {
 			select {
 			case err := <-r.done:
 				r.done <- err
-			case <-time.After(Deadline):
+			case <-time.After(w.patience()):
 				w.note("SyncChain did not return after a refused Send")
 			}
 			dl := time.Now().Add(100 * time.Millisecond)
@@ -483,7 +492,7 @@ func (w *world) do(e event) {
 		r.gs.gate <- struct{}{}
 		select {
 		case <-r.gs.added:
-		case <-time.After(Deadline):
+		case <-time.After(w.patience()):
 			w.note("AddCallback did not return within %v", Deadline)
 		}
 		if old, ok := w.reg[r.cid]; ok {
@@ -496,7 +505,7 @@ func (w *world) do(e event) {
 				case err := <-o.done:
 					o.done <- err
 					o.phase = "done"
-				case <-time.After(Deadline):
+				case <-time.After(w.patience()):
 					w.note("replaced SyncChain did not return")
 				}
 			}
